@@ -59,12 +59,17 @@ func processCalcJcc(env *Pass1, operands []ast.Exp, instName string) {
 		if env.BitMode == cpu.MODE_16BIT {
 			// JMP/CALL rel16 (E9/E8 cw) は 1 + 2 = 3 バイト
 			estimatedSize = 3
+			if instName != "JMP" && instName != "CALL" {
+				// Jcc rel16 (0F 8x cw) は 4 バイト
+				estimatedSize = 4
+			}
 			log.Printf("debug: [processCalcJcc] Assuming %d bytes (near jump/call to immediate) for %s in 16-bit mode.", estimatedSize, instName)
 		} else {
 			// 32/64bit モードでは estimateJumpSize を使用 (near jump/call を推定)
 			estimatedSize = estimateJumpSize(instName, env.BitMode)
 		}
-		ocode = fmt.Sprintf("%s %d", instName, targetAddr) // 数値文字列を直接設定
+		// 即値アドレスへの分岐は near 形式として数えたので、codegen にもそれを伝える
+		ocode = fmt.Sprintf("%s %d,near", instName, targetAddr)
 
 	case *ast.SegmentExp: // FAR ジャンプ (seg:off)
 		log.Printf("[pass1] Processing evaluated SegmentExp for %s: %s", instName, op.TokenLiteral())
@@ -116,6 +121,10 @@ func processCalcJcc(env *Pass1, operands []ast.Exp, instName string) {
 			}
 			estimatedSize = estimateJumpSize(instName, env.BitMode)
 			ocode = fmt.Sprintf("%s {{.%s}}", instName, label) // ラベルプレースホルダー
+			if env.BitMode != cpu.MODE_16BIT {
+				// 32 ビットモードでは near 形式 (rel32) として数えている
+				ocode += ",near"
+			}
 		} else {
 			// ケース 3b: ラベルでない ImmExp (例: '$' が NumberExp に評価された場合や予期しない Factor)
 			// デフォルトの処理にフォールスルーします (ocode は default で設定)
